@@ -60,6 +60,11 @@ Attrs == <<
      alts |-> {Sq2(S("/dev/a:/dev/a:rwm"), S("/dev/b:/dev/b:rwm")), Sq2(S("/dev/c:/dev/c:rwm"), S("/dev/a:/dev/a:r")), Sq1(S("/dev/d")), Sq2(S("/dev/e:/dev/d"), S("/dev/f:/dev/b"))}],
   [n |-> "ulimits", top |-> FALSE, p |-> <<"ulimits">>, alts |-> {M1("nofile", I(100)), M1("nofile", M2("soft", I(10), "hard", I(20))), M1("nproc", I(5))}],
   [n |-> "deploy.limits", top |-> FALSE, p |-> <<"deploy", "resources", "limits">>, alts |-> {M1("cpus", S("0.5")), M1("memory", S("64M")), M2("cpus", S("1.5"), "pids", I(10))}],
+  [n |-> "secrets.labels", top |-> TRUE, p |-> <<"secrets", "s1", "labels">>, alts |-> {Sq1(S("a=1")), M2("a", S("2"), "b", S("3"))}],
+  [n |-> "configs.labels", top |-> TRUE, p |-> <<"configs", "c1", "labels">>, alts |-> {Sq1(S("a=1")), M2("a", S("2"), "b", S("3"))}],
+  [n |-> "build.ssh", top |-> FALSE, p |-> <<"build", "ssh">>, alts |-> {Sq1(S("default")), Sq1(S("k=/p")), M1("k", S("/q")), Sq2(S("default"), S("j=/r"))}],
+  [n |-> "build.ulimits", top |-> FALSE, p |-> <<"build", "ulimits">>, alts |-> {M1("nofile", I(100)), M1("nofile", M2("soft", I(10), "hard", I(20))), M1("nproc", I(5))}],
+  [n |-> "extra_hosts", top |-> FALSE, p |-> <<"extra_hosts">>, alts |-> {M1("h", L(<<S("10.0.0.2"), S("10.0.0.10")>>)), Sq1(S("g=1.1.1.1")), Sq2(S("h=10.0.0.10"), S("h=10.0.0.3")), M1("g", S("2.2.2.2"))}],
   [n |-> "networks.labels", top |-> TRUE, p |-> <<"networks", "n1", "labels">>, alts |-> {Sq1(S("a=1")), M2("a", S("2"), "b", S("3"))}],
   [n |-> "volumes.labels", top |-> TRUE, p |-> <<"volumes", "data", "labels">>, alts |-> {Sq1(S("a=1")), M2("a", S("2"), "b", S("3"))}],
   [n |-> "networks.driver_opts", top |-> TRUE, p |-> <<"networks", "n1", "driver_opts">>, alts |-> {M1("o1", S("1")), M2("o1", S("2"), "o2", S("3"))}]
